@@ -45,7 +45,8 @@ Section Nq.
 
   (* the guards, for one list and one node *)
   Definition nq_guard (n : node) (l : list entry) : Prop :=
-    (forall e, In e l -> uniform_template (e_tmpl e) = true /\ In (e_alt e) (t_alts (e_tmpl e))) /\
+    (forall e, In e l -> uniform_template (e_tmpl e) = true /\ runtime_uniform_template (e_tmpl e) = true /\
+                         In (e_alt e) (t_alts (e_tmpl e))) /\
     (forall e1 e2, In e1 l -> In e2 l ->
        t_text (e_tmpl e1) = t_text (e_tmpl e2) -> t_prio (e_tmpl e1) = t_prio (e_tmpl e2) ->
        tmatch (e_tmpl e1) n = tmatch (e_tmpl e2) n).
@@ -71,7 +72,7 @@ Section Nq.
     match first_matching node pmatch (t_alts (e_tmpl e)) n with
     | None => {| nq_best := nq_best st; nq_conf := nq_conf st; nq_prev := Some e |}
     | Some a =>
-        let pr := match t_prio (e_tmpl e) with Some p => p | None => score_value (a_score a) end in
+        let pr := match t_prio (e_tmpl e) with Some p => p | None => score_value (a_rscore a) end in
         match nq_best st with
         | None => {| nq_best := Some (e, pr); nq_conf := []; nq_prev := Some e |}
         | Some (b, pb) =>
@@ -107,9 +108,12 @@ Section Nq.
       - intros p Hpp. inversion Hpp; subst. split; [exact He | exact Em]. }
     (* examined, matches *)
     destruct (first_matching_some node pmatch _ _ _ Ea) as [Hain _].
-    destruct (Gu e He) as [Hu Halt].
-    assert (Hpr : match t_prio (e_tmpl e) with Some p => p | None => score_value (a_score a) end = prio_or_default e).
-    { exact (uniform_prio (e_tmpl e) a (e_alt e) Hu Hain Halt). }
+    destruct (Gu e He) as [Hu [Hru Halt]].
+    assert (Hpr : match t_prio (e_tmpl e) with Some p => p | None => score_value (a_rscore a) end = prio_or_default e).
+    { pose proof (uniform_prio (e_tmpl e) a (e_alt e) Hu Hain Halt) as Hup.
+      unfold prio_of in Hup. unfold prio_or_default. unfold runtime_uniform_template in Hru.
+      destruct (t_prio (e_tmpl e)); [reflexivity|].
+      rewrite forallb_forall in Hru. specialize (Hru a Hain). lia. }
     cbv zeta. rewrite Hpr.
     destruct (first_ok mode n pre) as [f|] eqn:Ef.
     - destruct Hb as [b [Hbest Hconf]]. rewrite Hbest.
